@@ -7,7 +7,7 @@ Line-protocol driver for the chaperone model (C11), environment-recording style.
 harness); the table *is* the `Env` of the model for this case.  JSON values, structures and coercion labels
 are handles (`Nat`) interned by the harness; JSON handle 0 is Python's `None`.  A `fold`/`foldx` line runs the
 model and prints the final observation followed by the indices (into the table) of the library calls the model
-made, in order (`env T` lines only define texts that later `env` lines refer to as `@k`); a call that is not in the table prints as `?` and answers with an exception no real library
+made (`env T` lines only define texts that later `env` lines refer to as `@k`); a call that is not in the table prints as `?` and answers with an exception no real library
 raises, so any divergence in the calls made is visible in the output.
 -/
 open Operon Operon.Proto Operon.Chaperone
@@ -105,10 +105,7 @@ def mkEnv (st : DSt) (tb : Array (Key × Val)) : Env Nat Nat Nat where
   findall i t := match lookup tb (.F i t) with | some (_, .texts r) => r | _ => .raise unrecorded
   sub i t := match lookup tb (.U i t) with | some (_, .text r) => r | _ => .raise unrecorded
   validate d := match lookup tb (.V d) with | some (_, .s r) => r | _ => .raise unrecorded
-  coerce d :=
-    match lookup tb (.C d) with
-    | some (_, .c r) => if r = modelledCoerce st d then r else .raise mismatch   -- must equal what the real helper did
-    | _ => .raise unrecorded
+  coerce d := modelledCoerce st d     -- the model of the helper over the primitives the harness evaluated
 
 def keyOf : Call Nat Nat Nat → Key
   | .loads t _ => .L t
@@ -117,17 +114,13 @@ def keyOf : Call Nat Nat Nat → Key
   | .validate d _ => .V d
   | .coerce d _ => .C d
 
-/-- indices of the calls made; a coercion call whose recorded result is not what the model of the helper computes
-    from the primitives is marked (the exception it is answered with could otherwise be indistinguishable from
-    the helper's own) -/
-def showCalls (st : DSt) (tb : Array (Key × Val)) (tr : List (Call Nat Nat Nat)) : String :=
-  "calls=" ++ showList (tr.map fun c =>
-    match lookup tb (keyOf c) with
-    | some (i, v) =>
-      match c, v with
-      | .coerce d _, .c r => if r = modelledCoerce st d then toString i else s!"{i}!coerce-model-differs"
-      | _, _ => toString i
-    | none => "?")
+/-- the `model_validate` calls made (calls on the user's own schema class are what a caller can observe), as
+    indices into the table; a call the table does not know prints as `?` -/
+def showCalls (_st : DSt) (tb : Array (Key × Val)) (tr : List (Call Nat Nat Nat)) : String :=
+  "calls=" ++ showList (tr.filterMap fun c =>
+    match c with
+    | .validate _ _ => some (match lookup tb (keyOf c) with | some (i, _) => toString i | none => "?")
+    | _ => none)
 
 def excOf (s : String) : Exc :=
   if s = "jd" then .jsonDecode else if s = "ve" then .validation else .other (natD (s.drop 1).toString 0)
@@ -222,6 +215,10 @@ def step (st : DSt) (toks : List String) : DSt × String :=
   | "env" :: "O" :: j :: items => ({ st with ofd := st.ofd.push (items.map pairOf, natD j) }, "ok")
   | ["env", "P", v, a, b, i, f, s, bo, sp] =>
     ({ st with prims := st.prims.push (natD v, ⟨boolOf a, boolOf b, optNat i, optNat f, natD s, optNat bo, natD sp⟩) }, "ok")
+  | ["env", "I", ps, rs] =>
+    -- the tables the addressed instance shows in its public attributes, as the harness read them
+    let ids := fun (x : String) => if x = "-" then [] else (x.splitOn ",").map (natD ·)
+    ({ st with tables := (st.cur, ids ps, ids rs) :: st.tables.filter (fun e => e.1 != st.cur) }, "ok")
   | ["env", "M", fn, sid, "ok", sid'] => ({ st with mapfns := ((fn, natD sid), .ok (natD sid')) :: st.mapfns }, "ok")
   | ["env", "M", fn, sid, "raise", e] => ({ st with mapfns := ((fn, natD sid), .raise (excOf e)) :: st.mapfns }, "ok")
   | ["map", fn] =>
